@@ -18,7 +18,8 @@ TECHNIQUE = (
 RULE = (
     "strings: all strings of length <= n over {space, tab, LF, CR, '_', 'a', NBSP, VT}; steps: all lists of <= 3 step names over "
     "the three text cleaners on the first 3000 strings; html: all element trees built from the grammar (inline/block/hidden "
-    "elements, text nodes incl. blank, padded, entities) with <= 3 top-level siblings. distinct = distinct input; "
+    "elements, text nodes incl. blank, padded, entities) with <= 3 top-level siblings; pumped: every unit of <= 3 characters repeated n times "
+    "(n in 9..4099) through the cleaner oracles and all 2-step lists, and n identical sibling elements for html. distinct = distinct input; "
     "non-trivial = the cleaner changes the input / the tree contains an element."
 )
 ASSUMPTIONS = [
@@ -29,6 +30,7 @@ ASSUMPTIONS = [
 
 A = [" ", "\t", "\n", "_", "a", "\xa0", "\r", "\x0b"]
 NMAX = {"quick": 6, "thorough": 7}
+PUMP = {"quick": [9, 33, 257], "thorough": [9, 17, 33, 65, 129, 257, 1025, 4099]}
 STEPS = ["inline_whitespace", "all_whitespace", "underscores"]
 BAD = ["nope", "HTML", "", " html", None, 5, "Html", "all_whitespace "]
 TEXTS = ["foo", "bar baz", " ", "a &amp; b", "x&lt;y", "\n  qux\n"]
@@ -38,7 +40,7 @@ HID = ["script", "style"]
 
 
 def bounds(tier):
-    return {"alphabet": [repr(c) for c in A], "max_len": NMAX[tier], "step_lists_max": 3, "unknown_steps": [repr(b) for b in BAD], "html_depth": 2 if tier == "quick" else 3, "html_siblings": 3 if tier == "quick" else 2}
+    return {"alphabet": [repr(c) for c in A], "max_len": NMAX[tier], "step_lists_max": 3, "unknown_steps": [repr(b) for b in BAD], "html_depth": 2 if tier == "quick" else 3, "html_siblings": 3 if tier == "quick" else 2, "pumped_copies": PUMP[tier]}
 
 
 def check_string(s):
@@ -173,6 +175,8 @@ def shards(tier, seed):
     out.append({"part": "strings", "prefix": None, "n": 1})
     for r in range(16):
         out.append({"part": "steps", "r": r, "n": 16})
+    for r in range(8):
+        out.append({"part": "pumped", "r": r, "n": 8, "copies": PUMP[tier]})
     depth, sib = (1, 3) if tier == "quick" else (2, 2)
     for root in ("div", "p"):
         for r in range(24):
@@ -220,6 +224,27 @@ def run_shard(sh):
             for sl in lists:
                 res = check_steps(s, sl)
                 record({"kind": "steps", "s": s, "steps": list(sl)}, h64([s, sl]), res, len(sl) >= 2)
+        return st
+    if sh["part"] == "pumped":
+        # every unit of <= 3 characters repeated n times (many separate runs: count-limited or size-dependent
+        # code paths), through the per-cleaner oracles and through every 2-step list; html: n sibling elements
+        units = ["".join(t) for k in range(1, 4) for t in itertools.product(A, repeat=k)]
+        lists2 = [sl for sl in itertools.product(STEPS, repeat=2)]
+        for u in units[sh["r"] :: sh["n"]]:
+            for n in sh["copies"]:
+                s = u * n
+                record({"kind": "string", "s": s}, h64(s), check_string(s), True)
+                if n <= 40:
+                    for sl in lists2:
+                        record({"kind": "steps", "s": s, "steps": list(sl)}, h64([s, sl]), check_steps(s, sl), True)
+        kids = [it for it in gen(1) if "<" in it[0]]
+        for it in kids[sh["r"] :: sh["n"]]:
+            for n in sh["copies"]:
+                if n > 300:
+                    continue
+                for root in ("div",) if any(f"<{b}>" in it[0] for b in BLK) else ("div", "p"):
+                    doc, want = html_doc(root, (it,) * n)
+                    record({"kind": "html", "doc": doc, "want": want}, h64(doc), check_html(doc, want), True)
         return st
     items = list(gen(sh["depth"]))
     root = sh["root"]
